@@ -359,6 +359,29 @@ func systematicPkgCases(id *int, profile, scratch string, rng *rand.Rand, tier s
 			add(c, nodes, "rewritten-scripts")
 			out[len(out)-1].Rescript = true
 		}
+		// scripts of a package that installs nothing (a meta package), only directories and links, or only empty files: the
+		// scripts are what such a package is for
+		for vi, ents := range [][]Entry{{}, {{Type: "dir", Dst: "/var/lib/metapkg"}, {Type: "symlink", Src: "/usr/bin/other", Dst: "/usr/bin/metapkg"}},
+			{{Type: "file", Src: "src/empty", Dst: "/usr/share/metapkg/marker"}}} {
+			c := baseCfg("metapkg")
+			nodes := append(smallTree(), addScripts(rng, c, scriptSlots)...)
+			c.Entries = ents
+			add(c, nodes, fmt.Sprintf("scripts-of-empty-package-%d", vi))
+		}
+		// every script shape in every slot at once (the random cases pick a shape per slot)
+		for si, shape := range scriptShapes {
+			c := baseCfg("shapedscripts")
+			nodes := append(smallTree(), addScripts(rng, c, scriptSlots)...)
+			for i := range nodes {
+				if slot := slotOfNode(c, nodes[i].P); slot != "" {
+					body := append(append([]byte{}, shape...), []byte(fmt.Sprintf("# slot %s", slot))...)
+					nodes[i].data, nodes[i].Size, nodes[i].Cid = body, len(body), cidOf(body)
+					c.ScriptCid[slot] = cidOf(body)
+				}
+			}
+			c.Entries = []Entry{plain}
+			add(c, nodes, fmt.Sprintf("script-shape-%d", si))
+		}
 		// an essential ipk has its removal scripts like any other; a script path that goes up out of a SYMLINKED directory
 		// (the operating system resolves it, lexical cleaning would name another file)
 		{
@@ -792,4 +815,14 @@ func systematicPkgCases(id *int, profile, scratch string, rng *rand.Rand, tier s
 		}
 	}
 	return out
+}
+
+// slotOfNode: the script slot whose configured file is the node at path p ("" if none)
+func slotOfNode(c *Cfg, p string) string {
+	for slot, sp := range c.Scripts {
+		if sp == p {
+			return slot
+		}
+	}
+	return ""
 }
